@@ -51,6 +51,7 @@ def units(tier, seed):
     for opn in sorted(BINOPS):
         for (D, P) in BDPS:
             us.append({'kind': 'bcast', 'op': opn, 'D': D, 'P': P, 'tier': tier, 'seed': seed})
+    us.append({'kind': 'maxties', 'tier': tier, 'seed': seed})
     us.append({'kind': 'meta', 'tier': tier, 'seed': seed})
     return us
 
@@ -192,6 +193,68 @@ def check_entry(e, D, P, seed, out):
                 return
 
 
+def check_kept(e, D, P, seed, out):
+    """a result handed out by one call stays what it is when the same function is called again on other data of the same
+    shape (no shared work array behind the returned object), and the second result is right as well"""
+    args = CAT.make_args(e, D, P, seed)
+    args2 = CAT.make_args(e, D, P, seed + 7)
+    try:
+        r1 = CAT.outputs(e.fn(*args))
+        snap = [np.array(o.data, copy=True) if isinstance(o, UTPM) else None for o in r1]
+        r2 = CAT.outputs(e.fn(*args2))
+    except Exception:
+        return
+    out['evals'] += 1
+    case = {'kind': 'kept', 'name': e.name, 'D': D, 'P': P, 'seed': seed}
+    for k, (o, sn) in enumerate(zip(r1, snap)):
+        if sn is not None and not np.array_equal(o.data, sn, equal_nan=True):
+            out['fails'].append({'sig': 'C10|%s|result of an earlier call changed by a later call' % e.name, 'case': case, 'detail': {'output': k}})
+            return
+    try:
+        r1b = CAT.outputs(e.fn(*[UTPM(a.data.copy()) if isinstance(a, UTPM) else a for a in args]))
+    except Exception:
+        return
+    for k, (o, sn) in enumerate(zip(r1, snap)):
+        if sn is None:
+            continue
+        if isinstance(r1b[k], UTPM) and not np.array_equal(r1b[k].data, sn, equal_nan=True):
+            out['fails'].append({'sig': 'C10|%s|same arguments, different result after another call' % e.name, 'case': case, 'detail': {'output': k}})
+            return
+
+
+def run_maxties(u, out):
+    """UTPM.max / UTPM.argmax on data whose maximal zeroth coefficient occurs several times: ALL value patterns over {0,1,2}
+    for up to 4 elements, different patterns per direction; zeroth coefficient = numpy.max per direction"""
+    for n in (1, 2, 3, 4):
+        pats = list(itertools.product((0.0, 1.0, 2.0), repeat=n))
+        for i, pat in enumerate(pats):
+            for (D, P) in [(1, 1), (2, 2)]:
+                X = np.zeros((D, P, n))
+                for p in range(P):
+                    X[0, p] = pats[(i + 5 * p) % len(pats)]
+                if D > 1:
+                    X[1] = np.arange(n * P).reshape(P, n) * 0.5 - 1.0
+                out['evals'] += 1
+                out['nontrivial'] += 1 if n > 1 else 0
+                case = {'kind': 'maxties', 'n': n, 'pattern': list(pat), 'D': D, 'P': P}
+                try:
+                    m = UTPM.max(UTPM(X.copy()))
+                except Exception as ex:
+                    out['fails'].append({'sig': 'C10|UTPM.max|raises', 'case': case, 'detail': {'error': str(ex)[:160]}})
+                    continue
+                exp0 = np.array([np.max(X[0, p]) for p in range(P)])
+                if not isinstance(m, UTPM) or m.data.shape != (D, P) or not np.array_equal(m.data[0], exp0):
+                    ties = any(np.sum(X[0, p] == X[0, p].max()) > 1 for p in range(P))
+                    out['fails'].append({'sig': 'C10|UTPM.max|zeroth coefficient|%s' % ('ties' if ties else 'unique maximum'), 'case': case,
+                                         'detail': {'got': np.asarray(getattr(m, 'data', m)).tolist(), 'expected': exp0.tolist()}})
+                    continue
+                if D > 1:
+                    # the higher coefficients are those of ONE maximal element (NumPy's argmax: the first one)
+                    ok = all(any(np.array_equal(m.data[1:, p], X[1:, p, j]) for j in range(n) if X[0, p, j] == exp0[p]) for p in range(P))
+                    if not ok:
+                        out['fails'].append({'sig': 'C10|UTPM.max|higher coefficients are not those of a maximal element', 'case': case, 'detail': {}})
+
+
 def check_plain(e, seed, out):
     """called with plain arrays only, the algopy-level function returns exactly what the reference returns"""
     if e.ref is None:
@@ -322,6 +385,9 @@ def run_unit(u):
     if u['kind'] == 'cmpb':
         run_cmp_broadcast(u, out)
         return out
+    if u['kind'] == 'maxties':
+        run_maxties(u, out)
+        return out
     if u['kind'] == 'entries':
         for nm in u['names']:
             e = CAT.BY_NAME[nm]
@@ -330,6 +396,7 @@ def run_unit(u):
                     continue
                 check_entry(e, D, P, u['seed'], out)
             check_plain(e, u['seed'], out)
+            check_kept(e, 2, 2, u['seed'], out)
         out['samples'] = [{'entry': u['names'][0], 'DP': DPS}]
     elif u['kind'] == 'cmp':
         run_cmp(u, out)
@@ -348,6 +415,11 @@ def replay(case):
         check_entry(CAT.BY_NAME[case['name']], case['D'], case['P'], case.get('seed', 0), out)
     elif case['kind'] == 'plain':
         check_plain(CAT.BY_NAME[case['name']], case.get('seed', 0), out)
+    elif case['kind'] == 'kept':
+        check_kept(CAT.BY_NAME[case['name']], case['D'], case['P'], case.get('seed', 0), out)
+    elif case['kind'] == 'maxties':
+        run_maxties(case, out)
+        out['fails'] = [f for f in out['fails'] if all(f['case'].get(k) == case.get(k) for k in ('n', 'pattern', 'D', 'P'))]
     elif case['kind'] == 'cmpb':
         run_cmp_broadcast(case, out)
         out['fails'] = [f for f in out['fails'] if all(f['case'].get(k) == case.get(k) for k in ('sa', 'sb', 'pattern', 'D', 'P'))]
